@@ -32,20 +32,26 @@ func kSel(s *Selector) *metav1.LabelSelector {
 	return ls
 }
 func podSpec(wl *Workload) corev1.PodSpec {
-	c := corev1.Container{Name: "c", Image: "img"}
-	c2 := corev1.Container{Name: "sidecar", Image: "img2"}
+	n := 1
+	if wl.SplitContainers {
+		n = 2
+	}
+	if wl.NCont > 0 {
+		n = wl.NCont
+	}
+	cs := make([]corev1.Container, n)
+	for i := range cs {
+		cs[i] = corev1.Container{Name: fmt.Sprintf("c%d", i), Image: "img"}
+	}
+	cs[0].Name = "c"
+	if n > 1 {
+		cs[1].Name = "sidecar"
+	}
 	for i, p := range wl.Ports {
 		cp := corev1.ContainerPort{Name: p.Name, ContainerPort: int32(p.Number), Protocol: corev1.Protocol(p.Proto)}
-		if wl.SplitContainers && i%2 == 1 {
-			c2.Ports = append(c2.Ports, cp)
-		} else {
-			c.Ports = append(c.Ports, cp)
-		}
+		cs[i%n].Ports = append(cs[i%n].Ports, cp)
 	}
-	ps := corev1.PodSpec{Containers: []corev1.Container{c}}
-	if wl.SplitContainers {
-		ps.Containers = append(ps.Containers, c2)
-	}
+	ps := corev1.PodSpec{Containers: cs}
 	h := corev1.Container{Name: "helper", Image: "img3"}
 	switch wl.Helper {
 	case 1:
